@@ -1,0 +1,6 @@
+//go:build !verif
+
+package tss
+
+// simYield is a no-op unless the package is built with the `verif` tag (see simhook_on.go).
+func simYield(*BaseParty, string) {}
